@@ -270,3 +270,92 @@ def r7(ctx: Ctx) -> None:
     _c04.r2(ctx)
     _c04.r4(ctx)
     _c04.yaml_emitter_keeps_order(ctx)     # die and allocation documents go through the same sink
+
+
+@rule("C19", "R8.stage-kind-flags", "CCP-TABLE",
+      "the netlist the normalisation stage writes as text keeps the kind of every module: for each consistent kind (soft, "
+      "hard, hard+flip, fixed, terminal, fixed terminal) the flags appended by solution_to_netlist (partial evaluation "
+      "of its module loop) are decoded by the Module constructor to the same kind, and are accepted together", floor=6)
+def r8(ctx: Ctx) -> None:
+    import re
+    from framelint.peval import peval_block
+    f = ctx.func(RECTIO, "solution_to_netlist")
+    c = canon_function(f, ctx.model)
+    loops = [lp for lp in c if lp[0] == "for" and len(lp) == 5 and lp[2] == ("a", ("p", 0), "modules")]
+    ctx.require(len(loops) == 1, "solution_to_netlist: loop over the modules not found")
+    mod = loops[0][1]
+    kinds = [
+        ("soft", dict(hard=False, fixed=False, terminal=False, flip=False)),
+        ("hard", dict(hard=True, fixed=False, terminal=False, flip=False)),
+        ("hard flippable", dict(hard=True, fixed=False, terminal=False, flip=True)),
+        ("fixed", dict(hard=True, fixed=True, terminal=False, flip=False)),
+        ("terminal", dict(hard=True, fixed=False, terminal=True, flip=False)),
+        ("fixed terminal", dict(hard=True, fixed=True, terminal=True, flip=False)),
+    ]
+    for name, val in kinds:
+        env = {("a", mod, "is_hard"): K_TRUE if val["hard"] else K_FALSE, ("a", mod, "is_fixed"): K_TRUE if val["fixed"] else K_FALSE,
+               ("a", mod, "is_terminal"): K_TRUE if val["terminal"] else K_FALSE, ("a", mod, "flip"): K_TRUE if val["flip"] else K_FALSE,
+               ("a", mod, "is_soft"): K_FALSE if val["hard"] else K_TRUE}
+        res = peval_block(loops[0][3], env)
+        texts = [x[2] for x in atoms_of(res, lambda x: len(x) == 3 and x[0] == "k" and x[1] == "str")]
+        flags = set()
+        for t in texts:
+            flags |= set(re.findall(r"\b(fixed|terminal|hard|flip)\s*:\s*true", t))
+        back = _c04._decode_flags(ctx, flags)
+        ctx.site(f.where, f"kind '{name}' survives the text netlist", emitted=sorted(flags), decoded=back)
+        if back != val:
+            diff = sorted(k for k in val if back.get(k) != val[k]) if "refused" not in back else ["refused:" + back["refused"]]
+            ctx.report(f.where, f"stage-kind-lost {name}: {','.join(diff)}", f"a {name} module is written by the normalisation stage with flags {sorted(flags)} and "
+                       f"read back as {back}", lineno=f.node.lineno)
+
+
+@rule("C19", "R9.generated-names", "SIBLING/CCP",
+      "the nets of every generated topology name modules that the same generator declares: a generator that asks "
+      "gen_modules for a chain (no column count) names modules with one index, one that passes a column count names them "
+      "with two; gen_modules declares one-index names exactly when the column count is not positive (partial evaluation "
+      "of its test at 0, 1, 2, 3, 1000), so every grid size -- one column included -- gets two-index names", floor=8)
+def r9(ctx: Ctx) -> None:
+    from framelint.peval import fold
+    from framelint.canon import subst
+    gm = ctx.func(NETGEN, "gen_modules")
+    cg = canon_function(gm, ctx.model)
+    cols = ("p", gm.params().index("columns"))
+    chain_ifs = [st for st in cg if st[0] == "if" and contains(st[1], cols) and st[2] and st[2][-1][0] == "ret"]
+    ctx.require(len(chain_ifs) == 1, "gen_modules: the chain / grid test on the column count was not found")
+    st = chain_ifs[0]
+    rest = tuple(x for x in cg if x is not st)
+
+    def arities(block):
+        return {len(x[2]) for x in atoms_of(block, lambda x: x[0] == "c" and x[1] == ("g", "module_name"))}
+    # the conditional is stored with its positive test: find which arm declares the one-index names
+    if arities(st[2]) == {1} and arities(rest) == {2}:
+        chain_cond = st[1]
+    elif arities(st[2]) == {2} and arities(rest) == {1}:
+        chain_cond = mk_not(st[1])
+    else:
+        raise AnalysisError("gen_modules: the two naming branches were not recognised")
+    table = {k: fold(subst(chain_cond, {cols: k_num(k)})) for k in (0, 1, 2, 3, 1000)}
+    ctx.site(gm.where, "one-index (chain) names exactly when columns <= 0", table={k: show(v) for k, v in table.items()})
+    if table[0] != K_TRUE or any(table[k] != K_FALSE for k in (1, 2, 3, 1000)):
+        ctx.report(gm.where, "chain-test " + show(chain_cond), "gen_modules declares one-index names for a positive column count (or two-index names for a chain): the "
+                   "nets of that topology/size name modules that are not declared, and the reader refuses the document", lineno=gm.node.lineno,
+                   table={k: show(v) for k, v in table.items()})
+    dflt = dict(zip([a.arg for a in gm.node.args.args][len(gm.node.args.args) - len(gm.node.args.defaults):], gm.node.args.defaults))
+    d = dflt.get("columns")
+    ctx.site(gm.where, "the column count defaults to 0 (a chain)", default=ast.unparse(d) if d is not None else None)
+    if not (isinstance(d, ast.Constant) and d.value == 0):
+        ctx.report(gm.where, "chain-default", "gen_modules does not default to a chain (columns = 0)", lineno=gm.node.lineno)
+    gens = [f for f in ctx.model.all_functions() if f.module.relpath == NETGEN and f.name.startswith("gen_") and f.name != "gen_modules"]
+    for f in sorted(gens, key=lambda f: f.where):
+        c = canon_function(f, ctx.model)
+        decl = atoms_of(c, lambda x: x[0] == "c" and x[1] == ("g", "gen_modules"))
+        names = atoms_of(c, lambda x: x[0] == "c" and x[1] == ("g", "module_name"))
+        if not decl:
+            continue      # helper generators that only build nets (their caller declares the modules)
+        arities = {len(x[2]) for x in names}
+        with_cols = any(len(x[2]) >= 3 or "columns" in dict(x[3]) for x in decl)
+        want = {2} if with_cols else {1}
+        ctx.site(f.where, "net member names have the arity of the declared module names", declared="two-index" if with_cols else "one-index", used=sorted(arities))
+        if names and arities != want:
+            ctx.report(f.where, f"name-arity {sorted(arities)}", f"{f.qualname} names net members with {sorted(arities)} indices but declares "
+                       f"{'two' if with_cols else 'one'}-index modules", lineno=f.node.lineno)
